@@ -73,6 +73,8 @@ fn c12_alphabet() -> Vec<Sym> {
         Sym::CancelFuture,
         Sym::CancelNone,
         Sym::Unknown,
+        Sym::Completions,
+        Sym::CompletionsPastEnd,
     ]
 }
 
@@ -85,7 +87,7 @@ pub fn part_histories(tier: Tier) -> Part {
     let mut part = Part::new("dap-request-histories");
     let cfg = DapCfg { prop: "C12", depth: if tier == Tier::Quick { 4 } else { 6 }, alphabet: c12_alphabet(), wall: wall_cap(tier, 45, 2400), c13: false };
     part.bounds = json!({"symbols": cfg.alphabet.len(), "depth": cfg.depth, "programs": 1, "wall_cap_s": cfg.wall.as_secs()});
-    part.rule = "explicit-state search over DAP request histories on the real DebugSession::run (in-process adapter thread, real debuggee): 34 request symbols (valid / missing / ill-typed arguments, out-of-order, repeated) are each executed from every distinct canonical state (lifecycle flags, located reference-trace index of the stopped debuggee, breakpoint tables, pending cancellation) up to the depth bound; every message written is checked by the protocol monitor M1-M11 of DESIGN.md Appendix B".into();
+    part.rule = "explicit-state search over DAP request histories on the real DebugSession::run (in-process adapter thread, real debuggee): 36 request symbols (valid / missing / ill-typed arguments, out-of-order, repeated) are each executed from every distinct canonical state (lifecycle flags, located reference-trace index of the stopped debuggee, breakpoint tables, pending cancellation) up to the depth bound; every message written is checked by the protocol monitor M1-M11 of DESIGN.md Appendix B".into();
     let ps = match progs(vec![vec![Stmt::While(3), Stmt::CallF]]) {
         Ok(p) => p,
         Err(e) => {
